@@ -419,36 +419,36 @@ def jobs(tier):
     for lv, ns in rh:
         for wc in (False, True):
             js.append(Job('rhs[l=%s,samples=%d,%s]' % ('x'.join(map(str, lv)), ns, 'classes' if wc else 'plain'), rhs, {'levelvec': list(lv), 'nsamples': ns, 'with_classes': wc},
-                          validate=(5 if q else 2), timeout_ms=30000, budget_s=(300 if q else 1500)))
+                          validate=(5 if q else 2), timeout_ms=30000, budget_s=(600 if q else 3000)))
     for lvs, ns in ([(((2,), (3,), (2,)), 1), (((2, 1), (1, 2), (2, 1)), 1), (((2, 2), (2, 1)), 1)] if q else
                     [(((2,), (3,), (2,)), 2), (((2, 1), (1, 2), (2, 1)), 2), (((2, 2), (2, 1), (1, 2)), 1), (((3, 2), (2, 3)), 1), (((2, 2, 1), (1, 2, 2)), 1)]):
         for wc in (False, True):
             js.append(Job('rhs-large[l=%s,samples=%d,%s]' % ('+'.join('x'.join(map(str, lv)) for lv in lvs), ns, 'classes' if wc else 'plain'), rhs_large,
-                          {'levelvecs': [list(lv) for lv in lvs], 'nsamples': ns, 'with_classes': wc}, validate=(5 if q else 2), timeout_ms=30000, budget_s=(300 if q else 1500)))
+                          {'levelvecs': [list(lv) for lv in lvs], 'nsamples': ns, 'with_classes': wc}, validate=(5 if q else 2), timeout_ms=30000, budget_s=(600 if q else 3000)))
     for lv in ([(1,), (2,), (3,), (1, 1), (2, 1), (2, 2)] if q else [(1,), (2,), (3,), (4,), (1, 1), (2, 1), (2, 2), (3, 2), (2, 2, 1)]):
-        js.append(Job('hats[l=%s]' % 'x'.join(map(str, lv)), hats, {'levelvec': list(lv)}, validate=(5 if q else 2), timeout_ms=30000, budget_s=(300 if q else 1500)))
+        js.append(Job('hats[l=%s]' % 'x'.join(map(str, lv)), hats, {'levelvec': list(lv)}, validate=(5 if q else 2), timeout_ms=30000, budget_s=(600 if q else 3000)))
     for lv in ([(2,), (2, 1)] if q else [(2,), (3,), (2, 1)]):
         for lam in ((0.0, 0.01) if q else (0.0, 0.01, 1.0)):
             for wc in (False, True):
                 js.append(Job('normalise[l=%s,lambda=%s,%s]' % ('x'.join(map(str, lv)), lam, 'classes' if wc else 'plain'), normalise,
-                              {'levelvec': list(lv), 'lam': lam, 'with_classes': wc}, validate=(5 if q else 2), timeout_ms=30000, budget_s=(300 if q else 1500)))
+                              {'levelvec': list(lv), 'lam': lam, 'with_classes': wc}, validate=(5 if q else 2), timeout_ms=30000, budget_s=(600 if q else 3000)))
     for npts, symb in ([((1,), True), ((2,), True), ((3,), True), ((1, 1), True), ((2, 1), True), ((2, 2), True), ((3,), False), ((3, 2), False)] if q else
                        [((1,), True), ((2,), True), ((3,), True), ((4,), True), ((1, 1), True), ((2, 1), True), ((2, 2), True), ((3, 2), True), ((3,), False), ((5,), False), ((3, 3), False), ((2, 2, 1), False)]):
         for ml in (False, True):
             js.append(Job('gramdw[n=%s,%s,%s]' % ('x'.join(map(str, npts)), 'symgeom' if symb else 'trees', 'lumped' if ml else 'full'), gramdw,
-                          {'npts': list(npts), 'masslumping': ml, 'symbolic': symb}, validate=(5 if q else 2), timeout_ms=60000, budget_s=(300 if q else 1500)))
+                          {'npts': list(npts), 'masslumping': ml, 'symbolic': symb}, validate=(5 if q else 2), timeout_ms=60000, budget_s=(600 if q else 3000)))
     for npts, ns in ([((1,), 1), ((2,), 1), ((3,), 1), ((3,), 2), ((1, 1), 1), ((2, 1), 1)] if q else [((1,), 1), ((2,), 1), ((3,), 1), ((3,), 2), ((5,), 1), ((1, 1), 1), ((2, 1), 1), ((3, 1), 1), ((2, 2), 1), ((2, 1), 2)]):
         for wc in (False, True):
             js.append(Job('rhsdw[n=%s,samples=%d,%s]' % ('x'.join(map(str, npts)), ns, 'classes' if wc else 'plain'), rhsdw, {'npts': list(npts), 'nsamples': ns, 'with_classes': wc},
-                          validate=(5 if q else 2), timeout_ms=30000, budget_s=(300 if q else 1500)))
+                          validate=(5 if q else 2), timeout_ms=30000, budget_s=(600 if q else 3000)))
     for npts, symb in ([((1,), True), ((2,), True), ((3,), True), ((2, 1), True), ((3,), False), ((3, 2), False)] if q else
                        [((1,), True), ((2,), True), ((3,), True), ((4,), True), ((2, 1), True), ((2, 2), True), ((3,), False), ((5,), False), ((3, 3), False)]):
         js.append(Job('hatsdw[n=%s,%s]' % ('x'.join(map(str, npts)), 'symgeom' if symb else 'trees'), hatsdw, {'npts': list(npts), 'symbolic': symb},
-                      validate=(5 if q else 2), timeout_ms=30000, budget_s=(300 if q else 1500)))
+                      validate=(5 if q else 2), timeout_ms=30000, budget_s=(600 if q else 3000)))
     for npts in ([(2,), (3,)] if q else [(2,), (3,), (2, 1)]):
         for lam in ((0.0, 0.01) if q else (0.0, 0.01, 1.0)):
             for wc in (False, True):
                 for ml in (False, True):
                     js.append(Job('normalisedw[n=%s,lambda=%s,%s,%s]' % ('x'.join(map(str, npts)), lam, 'classes' if wc else 'plain', 'lumped' if ml else 'full'), normalisedw,
-                                  {'npts': list(npts), 'lam': lam, 'with_classes': wc, 'masslumping': ml}, validate=(5 if q else 2), timeout_ms=30000, budget_s=(300 if q else 1500)))
+                                  {'npts': list(npts), 'lam': lam, 'with_classes': wc, 'masslumping': ml}, validate=(5 if q else 2), timeout_ms=30000, budget_s=(600 if q else 3000)))
     return js
